@@ -13,7 +13,8 @@ package main
 //	        inside it the harness starts Cancel() or Size() on another goroutine, or ends
 //	        members itself, and waits a bounded time; recorded: was Done() called, did the
 //	        nested call return (for ended members: the pool become done) inside the callback,
-//	        i.e. before Add returned, was the pool seen done there; then the observations after both returned and of a further script.
+//	        i.e. before Add returned, was the pool seen done there; then the observations after
+//	        both returned and of a further script.
 //	race:   k live members are ended by one goroutine while other goroutines each Add one fresh
 //	        live context; the harness decides under its own mutex, from marks set BEFORE each
 //	        member is cancelled, which Adds certainly returned while a member was live.
@@ -71,6 +72,19 @@ func (pt *patienceT) deadline() (time.Duration, bool) {
 		return failedCaseWait, true
 	case pt.failedCases >= fullFailures:
 		return shortDeadline, false
+	default:
+		return liveDeadline, true
+	}
+}
+
+// callDeadline: the same for a pool call that must return. Calls return at once unless they hang,
+// so the shortened bounds can stay comfortable without slowing a failing run down.
+func (pt *patienceT) callDeadline() (time.Duration, bool) {
+	switch {
+	case pt.caseFailed:
+		return time.Second, true
+	case pt.failedCases >= fullFailures:
+		return 250 * time.Millisecond, false
 	default:
 		return liveDeadline, true
 	}
@@ -365,7 +379,7 @@ func (r *runner) call(what string, f func()) bool {
 	if r.stopped() {
 		return false
 	}
-	d, rec := patience.deadline()
+	d, rec := patience.callDeadline()
 	ok, pv := returns(f, d)
 	if pv != nil {
 		r.wedged, r.panicked = what, true
@@ -568,7 +582,7 @@ func (r *runner) decorate(ctx *core.Ctx, c *hx.Case, kind string) bool {
 			c.Note = fmt.Sprintf("%s panicked; the script is recorded up to that call", r.wedged)
 			ctx.Sink.Count(kind + "/call_panicked")
 		} else {
-			c.Note = fmt.Sprintf("%s did not return within %v; the script is recorded up to that call", r.wedged, liveDeadline)
+			c.Note = fmt.Sprintf("%s did not return within its deadline (%v, 1 s once the case has failed another wait); the script is recorded up to that call", r.wedged, liveDeadline)
 			ctx.Sink.Count(kind + "/call_did_not_return")
 		}
 	}
@@ -726,7 +740,7 @@ func runNested(ctx *core.Ctx, in c20Input) {
 				}
 			}
 			if in.Nested != "end" {
-				d, rec := patience.deadline()
+				d, rec := patience.callDeadline()
 				t := time.NewTimer(d)
 				select {
 				case <-completed:
@@ -896,7 +910,7 @@ func raceOnce(k, adders int, delays []int) raceOutcome {
 		}()
 	}
 	start.Store(true)
-	if d, rec := patience.deadline(); !returnsOK(wg.Wait, d) { // an Add that never returns
+	if d, rec := patience.callDeadline(); !returnsOK(wg.Wait, d) { // an Add that never returns
 		return raceOutcome{confirmed: make([]bool, adders), leak: true, dropped: !patience.failed(rec)}
 	}
 	mid := settleNotDone(p, 40)
